@@ -309,6 +309,9 @@ def discharge(site, cx, body):
     if kind == "BoundsCheck":
         base_ty = n.get("base_ty")
         N = panics.array_len(base_ty, cx.consts)
+        if N is None:
+            # the indexed expression's own type (a const table or an array field reached through a slice parameter of an inlined helper)
+            N = panics.array_len(str(hir.simp(hir.peel(n["e"])).get("ty", "")).lstrip("&"), cx.consts)
         iv = panics.interval(n["i"], cx, refine)
         if N is not None and iv is not None and iv[0] >= 0 and iv[1] <= N - 1:
             return "D-index-interval", f"index in {iv} below array length {N}"
